@@ -200,14 +200,25 @@ int main(int argc, char** argv) {
       }
       else {
         // operand built with a different seed: every operation must refuse it when it is non-empty
-        auto f = update_theta_sketch::builder().set_seed(sd + 1).build(); f.update((int64_t)1); f.update((int64_t)2);
-        int which = (int)g.below(3); const char* out = "ok";
+        // (a foreign operand in estimation mode with a low theta, so that a side effect of the refused call shows in
+        // the later results of the LIVE union / intersection it was offered to: the specification keeps their state)
+        auto f = update_theta_sketch::builder().set_lg_k(5).set_p(g.chance(50) ? 0.05f : 1.0f).set_seed(sd + 1).build();
+        for (int64_t q = 1; q <= 300; q++) f.update(q);
+        int which = (int)g.below(5); const char* out = "ok";
+        int lu = (int)g.below(NU), li = (int)g.below(NI);
+        if (which == 3 && !un[lu]) which = 0;
+        if (which == 4 && !ix[li]) which = 1;
+        // an intersection whose running result is already EMPTY may ignore every further operand unseen
+        bool liveEmpty = false;
+        if (which == 4 && ix[li]->has_result()) liveEmpty = ix[li]->get_result().is_empty();
         try {
           if (which == 0) { theta_union u = theta_union::builder().set_seed(sd).build(); u.update(f); }
           else if (which == 1) { theta_intersection i(sd); i.update(f); }
-          else { theta_a_not_b anb(sd); auto x = update_theta_sketch::builder().set_seed(sd).build(); x.update((int64_t)1); anb.compute(x, f); }
+          else if (which == 2) { theta_a_not_b anb(sd); auto x = update_theta_sketch::builder().set_seed(sd).build(); x.update((int64_t)1); anb.compute(x, f); }
+          else if (which == 3) { if (g.chance(50)) un[lu]->update(f); else un[lu]->update(f.compact(g.chance(50))); }
+          else { if (g.chance(50)) ix[li]->update(f); else ix[li]->update(f.compact(g.chance(50))); }
         } catch (const std::invalid_argument&) { out = "throw"; }
-        Ev("Mismatch").i("which", which).str("outcome", out).emit();
+        Ev("Mismatch").i("which", which).b("liveEmpty", liveEmpty).str("outcome", out).emit();
       }
     }
   }
